@@ -22,8 +22,19 @@ ASSUMPTIONS = ["a handle whose job was removed / moved / re-keyed through anothe
                "(exception, nothing changed on disk); the documented session cache may still resolve the id of a removed job"]
 EXHAUSTIVE = {"quick": False, "thorough": False}
 TECHNIQUE = "Lean 4 refinement proof (workspace model -> id-keyed map) + per-step differential run of real signac against the Lean model and a plain reference model"
-LEVEL_TEXT = "see evidence; under construction"
-LEVEL_NOTE = "under construction"
+LEVEL_TEXT = ("Proved in Lean for every finite history of public operations (incl. failing ones), every payload and every "
+              "hash function: the workspace invariant (each job stored under the hash of its state point, ids unique) holds "
+              "after every step, hence check() passes, len/iteration/membership agree, and handle creation / copies / "
+              "pickling / cache maintenance / session restarts / foreign directories never change a job. The Lean model is "
+              "the 'simple in-memory model' of the property; it is run in lock step with the real signac on generated "
+              "histories (result kind, digest of both workspaces as seen by a FRESH session, ids of all live handles, after "
+              "every step), and an independent plain Python reference model judges the real code directly, including a raw "
+              "tree scan for leftovers and foreign directories.")
+LEVEL_NOTE = ("Trusted: Lean kernel + 3 standard axioms; correspondence harness and plain reference model "
+              "(harness/ws_common.py). The model is at whole-operation granularity (crash points: C11; caches: C08). A "
+              "refusal of a stale handle (job removed/moved/re-keyed through an unrelated handle) is resolved by the harness "
+              "and not sent to the model. Known findings carved out exactly: F-4b, F-3c, F-3d, F-5c (all rooted in the "
+              "synced_collections dependency).")
 
 REDUCED = None
 
@@ -45,7 +56,7 @@ def reduced_alphabet():
 
 
 def generate(tier, rng):
-    n_random = 220 if tier == "quick" else 3000
+    n_random = 1500 if tier == "quick" else 12000
     length = 25 if tier == "quick" else 60
     alpha = reduced_alphabet()
     opens = alpha[:3]
@@ -84,7 +95,10 @@ def run_case(case, ctx):
     tags = sorted({"op:" + r["op"][0] for r in records if "real" in r})
     tags += ["fail:" + r["real"] for r in records if "real" in r and not r["real"].startswith("ok")][:5]
     nontrivial = any(any(o["jobs"] for o in r.get("obs", [])) for r in records)
-    return {"model": [], "impl": [], "oracle": ([f for f in failures if not f.startswith("KNOWN[")] or failures)[:5], "tags": tags,
+    executed = [r for r in records if "mop" in r]
+    model = ["run " + " | ".join(r["mop"] for r in executed)] if executed else []
+    impl = [" ".join(r["itok"] for r in executed)] if executed else []
+    return {"model": model, "impl": impl, "oracle": ([f for f in failures if not f.startswith("KNOWN[")] or failures)[:5], "tags": tags,
             "key": json.dumps(case["ops"]) if nontrivial else None}
 
 
